@@ -55,10 +55,13 @@ class Config:
         return (self.language, self.region, self.density, self.sdk, self.orientation, self.raw_locale)
 
     def pack(self):
-        def two(s):
+        def two(s, base):
             b = s.encode("ascii")
+            if len(b) == 3:                                          # AOSP packLanguageOrRegion: five bits per character
+                f, g, h = (b[0] - base) & 0x7F, (b[1] - base) & 0x7F, (b[2] - base) & 0x7F
+                return bytes([(0x80 | (h << 2) | (g >> 3)) & 0xFF, ((g << 5) | f) & 0xFF])
             return b + b"\0" * (2 - len(b))
-        loc = self.raw_locale if self.raw_locale is not None else two(self.language) + two(self.region)
+        loc = self.raw_locale if self.raw_locale is not None else two(self.language, ord("a")) + two(self.region, ord("0"))
         out = struct.pack("<I", 0)                                   # imsi (mcc, mnc)
         out += loc                                                   # language[2], country[2]
         out += struct.pack("<BBH", self.orientation, 0, self.density)  # orientation, touchscreen, density
@@ -86,11 +89,11 @@ class Compact:
 
 
 class Table:
-    def __init__(self, package="com.example", package_id=0x7F, utf8=False, sparse=False):
+    def __init__(self, package="com.example", package_id=0x7F, utf8=False, sparse=False, values=None):
         self.package, self.package_id, self.utf8 = package, package_id, utf8
         self.types = []                 # type names
         self.entries = {}               # type name -> {config key -> (Config, {index -> (key name, value)})}
-        self.values = []                # global string pool
+        self.values = [] if values is None else values    # global string pool (one list shared by the packages of a table)
         self.modes = {}                 # (type name, config key) -> 'dense' | 'off16' | 'sparse'
         self.keys = []
 
@@ -190,7 +193,7 @@ def build_tables(tables, top_extra=b"", declared_packages=None):
     top_extra: bytes of further chunks between the global pool and the packages."""
     pkgs = b"".join(t.package_chunk() for t in tables)           # building the entries fills the value pool
     for t in tables[1:]:
-        assert not t.values, "only the first package may reference the global string pool"
+        assert not t.values or t.values is tables[0].values, "the packages of one table share one global string pool"
     gpool = string_pool(tables[0].values, utf8=tables[0].utf8)
     total = 12 + len(gpool) + len(top_extra) + len(pkgs)
     n = len(tables) if declared_packages is None else declared_packages
